@@ -366,6 +366,7 @@ package database
 //@   ensures[C01.fuzzy-score-range] forall k int :: 0 <= k && k < len(result) ==> 0.0 <= result[k].Score && result[k].Score <= 1.0
 //@   ensures[C04.fuzzy-gates] gatesOK(result, options)
 //@   ensures[C07.fuzzy-threshold] options.FuzzyThreshold != 0 ==> (forall k int :: 0 <= k && k < len(result) ==> result[k].Score >= normFuzzy(options.FuzzyThreshold))
+//@   hint[C07.best-first-final] return forall a, b int :: 0 <= a && a < b && b < len(results) ==> (exists ja, jb int :: 0 <= ja && ja < jb && jb < len(matches) && matches[ja].Index == cmdIdx(db, results[a].Command) && matches[jb].Index == cmdIdx(db, results[b].Command))
 //@   hint[C07.never-starved] return options.FuzzyThreshold == 0 && options.Limit > 0 && len(results) == 0 ==> (forall j int :: 0 <= j && j < len(matches) ==> !(platOK(&db.Commands[matches[j].Index], options) && pipeOK(&db.Commands[matches[j].Index], options)))
 //@ loop 1
 //@   invariant len(targets) == len(db.Commands) && fresh(targets)
@@ -375,6 +376,8 @@ package database
 //@   invariant forall k, j int :: 0 <= k && k < len(results) && $i <= j && j < len(matches) ==> cmdIdx(db, results[k].Command) != matches[j].Index && results[k].Score >= normFuzzy(matches[j].Score)
 //@   invariant forall k int :: 0 <= k && k < len(results) ==> results[k].Score <= 1.0 && (options.FuzzyThreshold != 0 ==> results[k].Score >= normFuzzy(options.FuzzyThreshold))
 //@   invariant[C07.raw-threshold] options.FuzzyThreshold != 0 ==> (forall k int :: 0 <= k && k < len(results) ==> (exists j int :: 0 <= j && j < $i && matches[j].Index == cmdIdx(db, results[k].Command) && matches[j].Score >= options.FuzzyThreshold))
+//@   invariant forall k int :: 0 <= k && k < len(results) ==> (exists j int :: 0 <= j && j < $i && matches[j].Index == cmdIdx(db, results[k].Command))
+//@   invariant[C07.best-first] forall a, b int :: 0 <= a && a < b && b < len(results) ==> (exists ja, jb int :: 0 <= ja && ja < jb && jb < $i && matches[ja].Index == cmdIdx(db, results[a].Command) && matches[jb].Index == cmdIdx(db, results[b].Command))
 //@   invariant[C07.none-skipped] options.FuzzyThreshold == 0 && len(results) == 0 ==> (forall j int :: 0 <= j && j < $i ==> !(platOK(&db.Commands[matches[j].Index], options) && pipeOK(&db.Commands[matches[j].Index], options)))
 
 // ---------------------------------------------------------------------------
